@@ -196,7 +196,7 @@ def prog_shrink(m):
         prog_mismatches(r, mm, st)
         mm = [x for x in mm if x["kind"] == "impl_violates_spec" and x["known"] is None]
         return mm[0] if mm else None
-    budget = 14
+    budget = 6
     best = m
     for rel in list(inp):
         for t in list(inp[rel]):
@@ -242,9 +242,9 @@ def tie(tier, seed, replay):
         for f in r["case"]["p"]["features"]:
             feats[f] = feats.get(f, 0) + 1
         unknown = [m for m in pm if m["kind"] == "impl_violates_spec" and m["known"] is None]
-        if unknown and len([m for m in mism if m.get("shrunk")]) < 2:
+        if unknown and not any(m.get("prog_shrunk") for m in mism):
             small = prog_shrink(unknown[0])
-            small["shrunk"] = True
+            small["prog_shrunk"] = True
             pm = [m for m in pm if m is not unknown[0]] + [small]
         mism += pm
     # one witness per known PROG class is enough for the runner; keep the one with the shortest description
